@@ -48,6 +48,12 @@ func (WebSocket) makeResponder(reqPacket []byte, sharedSecret [32]byte) Responde
 		http.Serve(newWsAcceptor(originalConn, reqPacket), handler)
 
 		<-handler.finished
+		if handler.conn == nil {
+			// the upgrade failed (e.g. the connection was lost before the 101 response could be written)
+			err = errors.New("failed to upgrade connection to ws")
+			originalConn.Close()
+			return
+		}
 		preparedConn = handler.conn
 		nonce := make([]byte, 12)
 		common.RandRead(randSource, nonce)
